@@ -978,7 +978,10 @@ pub fn stiff(args: &[String]) {
             if radau_ok && !(res[1].1 == "Success" && res[1].2 <= 1e3 * rtol) {
                 why = format!("y' = -+1e{}(y - cos t) - sin t from x0 = {} to {}, y0 = cos x0 + 1, rtol {:e}: Radau ends {} after {} steps (error {:.1e}), BDF ends {} after {} steps (error {:.1e})", ex, x0, xend, rtol, res[0].1, res[0].3, res[0].2, res[1].1, res[1].3, res[1].2);
             }
-            r14(310000 + k, "transient-away-from-origin", Method::BDF, "c14-bdf-start-below-time-resolution", &why, &format!("\"x0\":{},\"xend\":{},\"rate\":1e{},\"rtol\":{},\"radau\":\"{}\",\"bdf\":\"{}\",\"bdf_steps\":{},", x0, xend, ex, jnum(rtol), res[0].1, res[1].1, res[1].3));
+            // two situations: no attempt at all (the stagnation guard fired on the automatic first step), or the first attempt,
+            // made at the resolution of the time axis, was rejected
+            let key = if res[1].3 == 0 { "c14-bdf-start-stagnation" } else { "c14-bdf-start-below-time-resolution" };
+            r14(310000 + k, "transient-away-from-origin", Method::BDF, key, &why, &format!("\"x0\":{},\"xend\":{},\"rate\":1e{},\"rtol\":{},\"radau\":\"{}\",\"bdf\":\"{}\",\"bdf_steps\":{},", x0, xend, ex, jnum(rtol), res[0].1, res[1].1, res[1].3));
             k += 1;
         } }
     }
